@@ -12,12 +12,22 @@ their call-site names and returns them in the kernel's PARAMETER order; Model/Sh
 kernel applications through these functions, so swapping two arguments of a call (or two parameters of
 a def) changes the generated function, the model, and breaks gcxs_reshape_repr / gcxs_transpose_repr.
 
+Also extracted: the two arithmetic expressions of `_common.pad` — the shifted coordinates
+`new_coords = array.coords + pad_width[:, 0:1]` and the padded extent
+`array.shape[i] + pad_width[i, 0] + pad_width[i, 1]` — translated from the AST (integer `+`/`-` over the
+named operands only) into `s_pad_coord` / `s_pad_extent`, which Model/ShapeOps.v (coo_pad) uses.  Anything
+else in those expressions — in particular a cast of the shifted coordinates back to a narrow index dtype
+(`.astype(array.coords.dtype)`), which would wrap silently — is outside the grammar: the extraction is
+reported as FAILED (a broken obligation: the check exits 1 whatever the campaign finds) and the last
+extracted text is emitted as a marked fallback so that the campaign can still look for a failing input.
+
 Fail-closed: unknown expressions, keyword arguments, starred arguments, missing or several calls raise."""
 import ast
 import hashlib
 import os
 
 CV = "sparse/numba_backend/_compressed/convert.py"
+CM = "sparse/numba_backend/_common.py"
 
 
 class Shape(Exception):
@@ -105,6 +115,46 @@ def _site(tree, caller, callee, coqname, inputs):
     return text, {"params": params, "bound": bound}
 
 
+def _arith(e, leaves):
+    """integer expression over named leaves (matched by exact source text) with + and - only"""
+    txt = ast.unparse(e)
+    if txt in leaves:
+        return leaves[txt]
+    if isinstance(e, ast.BinOp) and isinstance(e.op, (ast.Add, ast.Sub)):
+        return f"({_arith(e.left, leaves)} {'+' if isinstance(e.op, ast.Add) else '-'} {_arith(e.right, leaves)})"
+    raise Shape(f"expression `{txt}` is outside the grammar (names {sorted(leaves)} with + and -)")
+
+
+def _pad_sites(repo):
+    with open(os.path.join(repo, CM)) as f:
+        tree = ast.parse(f.read())
+    fn = _func(tree, "pad")
+    coords = [n for n in ast.walk(fn) if isinstance(n, ast.Assign) and len(n.targets) == 1
+              and isinstance(n.targets[0], ast.Name) and n.targets[0].id == "new_coords"]
+    if len(coords) != 1:
+        raise Shape(f"expected one assignment to new_coords in pad, found {len(coords)}")
+    ctext = _arith(coords[0].value, {"array.coords": "c", "pad_width[:, 0:1]": "before"})
+    shapes = [n for n in ast.walk(fn) if isinstance(n, ast.Assign) and len(n.targets) == 1
+              and isinstance(n.targets[0], ast.Name) and n.targets[0].id == "new_shape"]
+    if len(shapes) != 1:
+        raise Shape(f"expected one assignment to new_shape in pad, found {len(shapes)}")
+    v = shapes[0].value
+    # tuple([<elt> for i in range(len(array.shape))])
+    comp = [n for n in ast.walk(v) if isinstance(n, ast.ListComp)]
+    if len(comp) != 1 or ast.unparse(comp[0].generators[0].iter) != "range(len(array.shape))" or comp[0].generators[0].ifs:
+        raise Shape(f"new_shape of pad is no longer a comprehension over the axes: `{ast.unparse(v)}`")
+    etext = _arith(comp[0].elt, {"array.shape[i]": "d", "pad_width[i, 0]": "before", "pad_width[i, 1]": "after"})
+    ctor = [n for n in ast.walk(fn) if isinstance(n, ast.Return) and isinstance(n.value, ast.Call)
+            and ast.unparse(n.value.func) == "COO"]
+    if len(ctor) != 1 or [ast.unparse(a) for a in ctor[0].value.args[:3]] != ["new_coords", "new_data", "new_shape"]:
+        raise Shape("pad no longer returns COO(new_coords, new_data, new_shape, ...)")
+    text = (f"(* _common.pad: new_coords = {ast.unparse(coords[0].value)} *)\n"
+            f"Definition s_pad_coord (c before : Z) : Z := {ctext}.\n\n"
+            f"(* _common.pad: new_shape[i] = {ast.unparse(comp[0].elt)} *)\n"
+            f"Definition s_pad_extent (d before after : Z) : Z := {etext}.\n")
+    return text, {"new_coords": ast.unparse(coords[0].value), "new_shape_elt": ast.unparse(comp[0].elt)}
+
+
 def generate(repo):
     with open(os.path.join(repo, CV)) as f:
         src = f.read()
@@ -123,9 +173,22 @@ def generate(repo):
         except Shape as ex:
             parts.append(f"(* {name}: EXTRACTION FAILED: {ex} *)\n")
             rep[name] = {"status": "failed", "error": str(ex)}
+    try:
+        t, r = _pad_sites(repo)
+        parts.append(t)
+        rep["s_pad_coord"] = {"status": "ok", **r}
+    except (Shape, OSError, SyntaxError) as ex:
+        # reported as a FAILED extraction (the check records a broken obligation and exits 1); the definitions below
+        # are the last extracted meaning, kept only so that the model still builds and the campaign can search for a
+        # concrete failing input
+        parts.append(f"(* s_pad_coord / s_pad_extent: EXTRACTION FAILED: {ex}\n"
+                     "   FALLBACK text follows (not extracted from the current source) *)\n"
+                     "Definition s_pad_coord (c before : Z) : Z := (c + before).\n\n"
+                     "Definition s_pad_extent (d before after : Z) : Z := ((d + before) + after).\n")
+        rep["s_pad_coord"] = {"status": "failed", "error": str(ex)}
     body = "\n".join(parts)
     digest = hashlib.sha256(body.encode()).hexdigest()[:16]
-    text = (f"(* Gen/S_shapeops.v — GENERATED by tools/sitegen/shapeops.py from {CV}.\n"
+    text = (f"(* Gen/S_shapeops.v — GENERATED by tools/sitegen/shapeops.py from {CV} and {CM}.\n"
             f"   Do not edit.  digest: {digest} *)\n"
             "From Coq Require Import ZArith List.\nImport ListNotations.\nOpen Scope Z_scope.\n\n" + body)
     return {"S_shapeops.v": text}, rep
